@@ -18,7 +18,7 @@ RULE = ("cases = (schema spec, value) with values conforming, partial (keys drop
 ASSUMPTIONS = ["values containing NaN are judged for the exception class only (nan != nan)",
                "usability is demanded only when the original schema is hereditarily satisfiable",
                "RecursionError on self-referential values is Python's own limit, not judged"]
-TIERS = {"quick": dict(shards=16, cases=8000), "thorough": dict(shards=16, cases=120000)}
+TIERS = {"quick": dict(shards=16, cases=20000), "thorough": dict(shards=16, cases=120000)}
 
 
 def setup(ctx):
